@@ -168,7 +168,9 @@ Definition h_take (e : env) (s : state) (owner : addr) (basket_denom amount : by
   _ <- check (tokens <=? bank_bal s owner (bk_denom k)) LInsufficient ;;
   s <- send_coins owner addr_basket coins s ;;
   s <- burn_coins addr_basket coins s ;;
-  amt <- lift (parse amount) ;;
+  (* the credits are derived from the parsed integer (Int.String() re-read as a decimal), not from a second
+     reading of the message string *)
+  amt <- lift (parse (to_string (mkDec false tokens 0))) ;;
   needed <- lift (quo_exact amt (mkDec false 1 (ct_precision cty))) ;;
   '(s, credits) <- take_loop (S (List.length (basket_rows s id))) owner id retire_on_take needed [] s ;;
   ret s (RTake credits).
